@@ -322,6 +322,7 @@ type Contract struct {
 	Lets     []*Clause // ghost let: Label = name
 	RndHints []*Clause
 	Hints    []*Clause
+	CallHints []*Clause
 	Line     int
 }
 
@@ -453,6 +454,12 @@ func parseContracts(text string) (*ContractFile, error) {
 		case "assume":
 			cf.Assume = append(cf.Assume, fmt.Sprintf("line %d: assume %s", ln+1, rest))
 			return nil, fmt.Errorf("line %d: 'assume' clauses are not allowed in contracts", ln+1)
+		case "callhint":
+			// callhint <callee> lemma(args): instantiated in the state before each call to <callee>
+			w, r := splitWord(rest)
+			cl := &Clause{Kind: "callhint", Label: w, Text: r, Line: ln + 1}
+			lastClause = cl
+			cur.CallHints = append(cur.CallHints, cl)
 		case "hint":
 			cl := &Clause{Kind: "hint", Text: rest, Line: ln + 1}
 			lastClause = cl
